@@ -104,7 +104,8 @@ class Meter:
             content = xdlms.GlobalCipherInitiateResponse(self.sc(), ic, ct)
         else:
             content = ir
-        res = en.AssociationResult.REJECTED_PERMANENT if rejected else en.AssociationResult.ACCEPTED
+        res = (en.AssociationResult.REJECTED_TRANSIENT if rejected == "transient" else
+               en.AssociationResult.REJECTED_PERMANENT if rejected else en.AssociationResult.ACCEPTED)
         diag = en.AcseServiceUserDiagnostics.AUTHENTICATION_FAILED if rejected else (
             en.AcseServiceUserDiagnostics.AUTHENTICATION_REQUIRED if hls else en.AcseServiceUserDiagnostics.NULL)
         return acse.ApplicationAssociationResponse(
